@@ -269,6 +269,7 @@ impl RelationSet {
     }
 
     pub fn add(&mut self, r: Relation, pq: Option<(u64, u64)>) {
+        #[cfg(yamaquasi_verif)] let vlen0 = self.venter(&r, pq);
         debug_assert!(&r.x < &self.n);
         if r.cofactor == 1 {
             self.add_cycle(r);
@@ -276,6 +277,7 @@ impl RelationSet {
             // Factor base elements have at most 24 bits
             self.n_partials += 1;
             if self.combine_single(&r) {
+                #[cfg(yamaquasi_verif)] self.vexit(vlen0);
                 return;
             }
             let p = r.cofactor;
@@ -286,6 +288,7 @@ impl RelationSet {
         } else {
             // Cofactor is above 32 bits: is it a double prime?
             let Some((p, q)) = pq else {
+                #[cfg(yamaquasi_verif)] self.vexit(vlen0);
                 return;
             };
             assert!(p >> 32 == 0 && q >> 32 == 0);
@@ -301,6 +304,7 @@ impl RelationSet {
                 self.doubles_rev.insert((key.1, key.0));
             }
         }
+        #[cfg(yamaquasi_verif)] self.vexit(vlen0);
     }
 
     pub fn add_cycle(&mut self, r: Relation) {
@@ -916,4 +920,98 @@ fn test_pack_relation() {
         ],
     };
     assert_eq!(PackedRelation::pack(r.clone()).unpack(), r);
+}
+
+/// Verification events of the relation store (cfg(yamaquasi_verif) only): one event when
+/// `RelationSet::add` is entered (what is inserted) and one when it returns (sizes of the
+/// three collections and the relations published by this call).  Emitted while the caller
+/// still holds the write lock of the store.
+#[cfg(yamaquasi_verif)]
+impl RelationSet {
+    fn venter(&self, r: &Relation, pq: Option<(u64, u64)>) -> usize {
+        crate::verif::ev(|| {
+            let kind = if r.cofactor == 1 {
+                "c"
+            } else if r.cofactor < self.maxlarge {
+                "s"
+            } else if pq.is_some() {
+                "d"
+            } else {
+                "x"
+            };
+            let (p, q) = match (kind, pq) {
+                ("s", _) => (r.cofactor, 1),
+                ("d", Some(pq)) => pq,
+                _ => (1, 1),
+            };
+            format!(
+                "\"op\":\"rel_add\",\"ph\":\"enter\",\"kind\":\"{}\",\"p\":{},\"q\":{},\"n\":\"{}\",\"maxlarge\":{},\"rel\":{}",
+                kind,
+                p,
+                q,
+                self.n,
+                self.maxlarge,
+                vhook::rel_json(r)
+            )
+        });
+        self.cycles.len()
+    }
+
+    fn vexit(&self, len0: usize) {
+        crate::verif::ev(|| {
+            let start = min(len0, self.cycles.len());
+            let published: Vec<String> = self.cycles[start..].iter().map(vhook::rel_json).collect();
+            format!(
+                "\"op\":\"rel_add\",\"ph\":\"exit\",\"n\":\"{}\",\"cycles\":{},\"partial\":{},\"doubles\":{},\"rev\":{},\"pub\":[{}]",
+                self.n,
+                self.cycles.len(),
+                self.partial.len(),
+                self.doubles.len(),
+                self.doubles_rev.len(),
+                published.join(",")
+            )
+        });
+    }
+}
+
+/// Verification accessors for the private packed encoding and the private maps of the
+/// relation store (cfg(yamaquasi_verif) only).
+#[cfg(yamaquasi_verif)]
+pub mod vhook {
+    use super::*;
+
+    /// {"x":"decimal","cof":u64,"len":u64,"f":[[p,k],...]}
+    pub fn rel_json(r: &Relation) -> String {
+        let fs: Vec<String> = r.factors.iter().map(|&(p, k)| format!("[{},{}]", p, k)).collect();
+        format!(
+            "{{\"x\":\"{}\",\"cof\":{},\"len\":{},\"f\":[{}]}}",
+            r.x,
+            r.cofactor,
+            r.cyclelen,
+            fs.join(",")
+        )
+    }
+    pub fn pack_blob(r: Relation) -> Vec<u8> {
+        PackedRelation::pack(r).blob.into_vec()
+    }
+    pub fn unpack_blob(blob: Vec<u8>) -> Relation {
+        PackedRelation { blob: blob.into_boxed_slice() }.unpack()
+    }
+    pub fn partial_keys(rs: &RelationSet) -> Vec<u64> {
+        let mut v: Vec<u64> = rs.partial.keys().copied().collect();
+        v.sort_unstable();
+        v
+    }
+    pub fn partial_get(rs: &RelationSet, p: u64) -> Option<Relation> {
+        rs.partial.get(&p).map(|r| r.unpack())
+    }
+    pub fn doubles_keys(rs: &RelationSet) -> Vec<(u32, u32)> {
+        rs.doubles.keys().copied().collect()
+    }
+    pub fn doubles_rev_keys(rs: &RelationSet) -> Vec<(u32, u32)> {
+        rs.doubles_rev.iter().copied().collect()
+    }
+    pub fn doubles_get(rs: &RelationSet, key: (u32, u32)) -> Option<Relation> {
+        rs.doubles.get(&key).map(|r| r.unpack())
+    }
 }
